@@ -70,9 +70,9 @@ fn call<C: Suite>(entry: &str, n: u16, t: u16, fix: &Fixed<C>, rng: &mut TraceRn
     match entry {
         "generate_with_dealer" | "split" => {
             let (shares, pkp) = if entry == "split" {
-                frost_core::keys::split(&fix.key, n, t, IdentifierList::Default, rng)
+                C::api_split(&fix.key, n, t, IdentifierList::Default, rng)
             } else {
-                frost_core::keys::generate_with_dealer::<C, _>(n, t, IdentifierList::Default, rng)
+                C::api_generate_with_dealer(n, t, IdentifierList::Default, rng)
             }
             .map_err(|e| format!("{e:?}"))?;
             let comm = shares.values().next().unwrap().commitment().clone();
@@ -90,9 +90,9 @@ fn call<C: Suite>(entry: &str, n: u16, t: u16, fix: &Fixed<C>, rng: &mut TraceRn
         }
         "dkg_part1" | "refresh_dkg_part1" => {
             let (sec, pkg) = if entry == "dkg_part1" {
-                frost_core::keys::dkg::part1::<C, _>(fix.ids[0], n, t, &mut *rng)
+                C::api_dkg_part1(fix.ids[0], n, t, &mut *rng)
             } else {
-                refresh::refresh_dkg_part1::<C, _>(fix.ids[0], n, t, &mut *rng)
+                C::api_refresh_dkg_part1(fix.ids[0], n, t, &mut *rng)
             }
             .map_err(|e| format!("{e:?}"))?;
             for (k, c) in pkg.commitment().coefficients().iter().enumerate() {
@@ -104,7 +104,7 @@ fn call<C: Suite>(entry: &str, n: u16, t: u16, fix: &Fixed<C>, rng: &mut TraceRn
             all.extend(pkg.serialize().map_err(|e| format!("{e:?}"))?);
         }
         "compute_refreshing_shares" => {
-            let (shares, pkp) = refresh::compute_refreshing_shares::<C, _>(fix.grp.pkp.clone(), &fix.grp.ids, rng).map_err(|e| format!("{e:?}"))?;
+            let (shares, pkp) = C::api_compute_refreshing_shares(fix.grp.pkp.clone(), &fix.grp.ids, rng).map_err(|e| format!("{e:?}"))?;
             for (k, c) in shares[0].commitment().coefficients().iter().enumerate() {
                 vals.push((format!("commitment[{}]", k + 1), eb(&c.value())));
             }
@@ -116,7 +116,7 @@ fn call<C: Suite>(entry: &str, n: u16, t: u16, fix: &Fixed<C>, rng: &mut TraceRn
         }
         "repair_share_part1" => {
             let helpers: Vec<Identifier<C>> = fix.grp.ids[1..].to_vec();
-            let deltas = repairable::repair_share_part1::<C, _>(&helpers, &fix.grp.kps[&helpers[0]], rng, fix.grp.ids[0]).map_err(|e| format!("{e:?}"))?;
+            let deltas = C::api_repair_part1(&helpers, &fix.grp.kps[&helpers[0]], rng, fix.grp.ids[0]).map_err(|e| format!("{e:?}"))?;
             for (to, d) in &deltas {
                 vals.push((format!("delta->{}", id_hex::<C>(to)), d.serialize()));
                 all.extend(d.serialize());
